@@ -99,7 +99,21 @@ def multi_channel_same_basis(doc: dict, params: dict) -> bool:
         if op["op"] == "declare_channel" and rec.get("outcome", "ok") == "ok":
             b = basis_of.get(op["channel_id"])
             seen[b] = seen.get(b, 0) + 1
-    return any(n >= 2 for n in seen.values())
+    if not any(n >= 2 for n in seen.values()):
+        return False
+    if doc["expected"].get("oracle") == "C05/formula":
+        # the defect misattributes a PHASE: the deviating matrix element must have
+        # the documented magnitude (anything else is a different violation)
+        import re
+
+        nums = re.findall(r"complex128\(([^)]*)\)", doc["expected"].get("msg", ""))
+        if len(nums) >= 2:
+            try:
+                z1, z2 = complex(nums[0].replace(" ", "")), complex(nums[1].replace(" ", ""))
+            except ValueError:
+                return True
+            return abs(abs(z1) - abs(z2)) <= 1e-6 * max(1.0, abs(z2))
+    return True
 
 
 MATCHERS["multi_channel_same_basis"] = multi_channel_same_basis
